@@ -62,7 +62,7 @@ def fn_intervals(gen_src):
         c = match_close(m_, o)
         while True:
             rest = m_[c + 1:]
-            mm = re.match(r"\s*(\)|,|==>|&&|\|\||==|=~=|<==>)", rest)
+            mm = re.match(r"\s*(\)|,|==>|&&|\|\||==|=~=|<==>|else\b)", rest)
             if not mm:
                 break
             # this brace group was inside a spec expression; find the next depth-0 `{`
@@ -180,6 +180,9 @@ def run_unit(tpl_path, rlimit=None, keep_dir=None, extra_args=(), timeout=900):
         kind = classify(msg)
         fn = innermost(intervals, ln) if ln else None
         fname = fn[2] if fn else None
+        for r_ in records:
+            if ln and r_.get("fn_name") and r_["gen_lines"][0] <= ln <= r_["gen_lines"][1]:
+                fname = r_["fn_name"]
         if kind is None or dgn.get("code"):
             if RESOURCE.search(msg):
                 res["tool_errors"].append("resource: %s (in %s)" % (msg, fname))
